@@ -281,6 +281,11 @@ func v08GenCase(rt *rapid.T) (v07Cfg, []v07Op, *v08Gen) {
 		}
 		g.sync()
 	}
+	// long destination names: all destinations of the case share a prefix of >= 64 bytes and differ only
+	// in the tail (drawn last so that earlier draw positions stay where they were)
+	if rapid.IntRange(0, 3).Draw(rt, "longNames") == 0 {
+		g.cfg.longPfx = v07LongPrefix(rapid.SampledFrom([]int{64, 65, 128, 255, 300, 1000}).Draw(rt, "commonPrefixBytes"))
+	}
 	return g.cfg, g.ops, g
 }
 
@@ -317,6 +322,9 @@ func TestVerifC08_Policy(t *testing.T) {
 		if len(g.sessUsed) >= 2 {
 			cls = append(cls, "sessions>=2")
 		}
+		if cfg.longPfx != "" {
+			cls = append(cls, fmt.Sprintf("long-names-common-prefix=%d", len(cfg.longPfx)))
+		}
 		if g.mixedBlocks > 0 {
 			cls = append(cls, "fragments-with-different-addresses")
 		}
@@ -350,7 +358,7 @@ func TestVerifC08_Policy(t *testing.T) {
 		}
 		nt := g.deniedAfterAllowed > 0 && (len(g.seen) > 256 || rewritten)
 		var fp strings.Builder
-		fmt.Fprintf(&fp, "%d/%d/%v|", cfg.hookMode, len(cfg.deny), cfg.denyRewrite)
+		fmt.Fprintf(&fp, "%d/%d/%v/%d|", cfg.hookMode, len(cfg.deny), cfg.denyRewrite, len(cfg.longPfx))
 		for _, o := range ops {
 			if o.kind == v07OpData {
 				fmt.Fprintf(&fp, "%d.%d%v,", o.s, o.dest, cfg.deny[o.dest])
